@@ -19,3 +19,138 @@ PROPS["C19"] = {
     "level_text": "Complete enumeration of the finite type-field domain against an independent statement of the RFC 8489 s5 bit layout, plus boundary and random sampling of 128-bit inputs for the 96-bit id handling; the finite part is decided exhaustively, the id part is exploration.",
     "level_note": "trusted: 15 lines of bit arithmetic in harness/src/refimpl/parse.rs (class_of/method_of/type_field)",
 }
+
+
+def _p(pid, title, level, technique, rule, level_text, level_note, extra_assume=None, **kw):
+    d = {"title": title, "level": level, "technique": technique, "rule": rule, "level_text": level_text,
+         "level_note": level_note, "assumptions": COMMON_ASSUME + (extra_assume or []),
+         "design_ref": "DESIGN.md section 4, %s" % pid}
+    d.update(kw)
+    PROPS[pid] = d
+
+_BYTES_RULE = ("buffers come from (a) a grammar generator that encodes bytes with the harness's own encoder (19 built-in attribute types with valid and invalid values, unknown types, duplicates, arbitrary padding, every order/subset/repetition of MESSAGE-INTEGRITY / MESSAGE-INTEGRITY-SHA256 (16..32 bytes) / FINGERPRINT tails with good and bad HMAC/CRC), (b) 16 mutators applied to them (bit flips, bursts, header/attribute length edits, retagging, truncation, extension with garbage or well-formed attributes, duplication, splicing), (c) the exhaustive skeleton enumeration (all attribute sequences up to length L over 7 attribute classes x 5 value-length residues x 6 declared-length perturbations), (d) exhaustive short-slice sweeps, (e) messages straddling the 16-bit length boundary. distinct = distinct (accept/reject, attribute-type skeleton, length residues, first 64 bytes) keys, capped at 2^18 per shard.")
+
+_p("C01", "Decoding and inspection never panic or hang, whatever the bytes", "exploration",
+   "runtime monitor: every decoder and read-only operation run under catch_unwind + watchdog on generated/mutated/enumerated buffers, checked and release builds; Miri and libFuzzer+ASan layers in the thorough tier",
+   _BYTES_RULE + " Every buffer goes through Message/MessageHeader/MessageType/RawAttribute::from_bytes; accepted messages through iteration (bounded, continued after None), lookups, 19 typed extractions, all typed decoders on every attribute, validate_integrity under several credentials, check_attribute_types for all four classes, Display/Debug, and a second pass under a tracing subscriber that formats every field.",
+   "Observes panics (as events), aborts and hangs (two-stage watchdog + isolated replay) over ~10^5 (quick) to ~10^8 (thorough) buffers up to 70 000 bytes in two builds; a sanitizer/interpreter layer (Miri, ASan+libFuzzer) covers dependency unsafe code in the thorough tier. Termination is decided in its bounded restatement (iterator item bound; 10 s / 60 s wall-clock watchdog with >= 10^5 x margin, first stage inconclusive).",
+   "trusted: catch_unwind + panic hook; the watchdog; a hang is reported only if it reproduces in an isolated replay",
+   ["inputs longer than 70 000 bytes are not generated", "a shard killed without a reproducible witness is inconclusive, not a violation"],
+   layers=["miri", "fuzz"], timeout={"quick": 1500, "thorough": 10800})
+
+_p("C02", "The parser accepts exactly the well-formed messages and exposes them faithfully", "exploration",
+   "runtime monitor: differential checking of Message::from_bytes against an independently written reference decoder (accept/reject, cause and byte counts, header fields, attribute sequence, first-match lookups); offline re-judgement of sampled events by a Python walker",
+   _BYTES_RULE + " plus a declared-length sweep (declared - actual in -8..=+8 and extremes) and an excess-byte sweep (1..=12 garbage or attribute-shaped bytes) over valid messages.",
+   "Two independent decoders compared on 10^5..10^8 buffers including an exhaustive small-scope enumeration of attribute skeletons; a disagreement is a concrete witness buffer. Agreement is evidence relative to the reference's reading of RFC 8489 and of the property text (DESIGN.md appendix A).",
+   "trusted: harness/src/refimpl/parse.rs (reference decoder, ~150 lines) audited offline by tools/logcheck.py on a sample of the run's own events",
+   ["where the first defective element of a buffer is defective in several ways any applicable cause is accepted"],
+   logcheck=True)
+
+_p("C03", "Whatever the builder serialises, the parser reads back identically", "exploration",
+   "runtime monitor: generated builder programs executed on MessageBuilder, output compared byte-for-byte with an independent reference encoder (incl. HMAC and CRC) and read back through the parser",
+   "programs = (class, method, 96-bit id, 0..=24 attributes with distinct types drawn from the 16 ordinary built-in types via their constructors (values at and around every limit) and raw unknown types (lengths 0..=763, every padding residue), one of the 8 sealing combinations, short- or long-term credentials over arbitrary UTF-8); plus a raw-length sweep 0..=763 x 8 sealing sets, all classes x boundary methods, and programs sized to land the total in 65400..=65552 bytes. distinct = distinct (attribute count, seals, length, first 40 bytes).",
+   "Every program's serialisation is checked for shape, equality with the reference encoding, parse, header fields, full attribute sequence, typed values and integrity validation: 10^5 (quick) to 10^7 (thorough) programs.",
+   "trusted: reference encoder + reference HMAC/CRC (self-tested); attribute implementations outside the crate are out of scope",
+   layers=["miri"])
+
+_p("C04", "Integrity: sealed messages verify, anything else does not", "fault_enumeration",
+   "runtime monitor with fault enumeration: for each sealed message every single-bit flip and byte substitutions in the covered range plus near-miss alternative credentials, judged with an independent HMAC-SHA1/SHA256/MD5 implementation",
+   "base messages are builder-sealed (compared byte-for-byte with the reference HMAC) and reference-sealed (SHA-1, SHA-256 truncated to 16/20/24/28/32 bytes, both attributes in both orders, with/without FINGERPRINT, 1..=6 ordinary attributes, short- and long-term credentials). For each: validation under K, under ~10..30 alternative credentials whose HMAC key differs (HMAC-equivalent keys such as a trailing NUL are filtered), every single-bit flip in [0, end of the validated attribute), all 255 substitutions at the structural bytes and sampled substitutions everywhere. Plus generated messages with wrong / partly wrong / missing integrity, and a few messages near 64 KiB. distinct = distinct base messages.",
+   "Exhaustive single-bit fault enumeration over every generated sealed message (the tamper-evidence claim) plus differential checking of the HMAC input and key derivation against an independent implementation.",
+   "trusted: harness SHA-1/SHA-256/MD5/HMAC (self-tested against FIPS/RFC vectors); cryptographic strength of HMAC is assumed, not tested",
+   ["multi-byte forgeries and timing side channels are out of reach"])
+
+_AGENT_RULE = ("histories over {send request/indication/response (8 ids, 5 destinations, unsealed/SHA-1/SHA-256/both, 2000 payload variants), poll at/before/half-way/after the last WaitUntil or arbitrarily late, responses (success/error; unsigned, valid under the remote or another key, SHA-1 / SHA-256 truncated / both, corrupted HMAC, partly valid; with/without FINGERPRINT; from any of 5 addresses), incoming requests/indications, cancel, cancel_retransmissions, configure_timeout, set_remote_credentials, time advance} executed on a real StunAgent in lock-step with a sequential reference model over virtual time; after every call request_transaction/peer_address for all ids and is_validated_peer for all addresses are compared; every history ends with a bounded-progress drain and a poll 2*10^7 ms later. Workloads: systematic small-scope enumeration (every history up to the depth bound over a reduced alphabet, UDP and TCP), long random histories, hand-shaped stress histories (simultaneous due instants replayed on fresh agents, late polls, response between cancel and poll, id reuse, reconfiguration below the retransmissions already sent, forged responses at every point of the schedule). distinct = distinct histories.")
+
+_p("C05", "Every request transaction completes exactly once", "exploration",
+   "runtime monitor: lock-step conformance of StunAgent with a sequential reference model (admissible-set oracle for simultaneously due transactions), systematic small-scope history enumeration + long random histories + bounded-progress drain",
+   _AGENT_RULE,
+   "Exactly-once completion, outstanding-ness, duplicate-id refusal, drop of unknown/late responses and absence of ghost events are asserted after every call over ~10^5 enumerated and ~10^3..10^5 random histories; 'completes' is decided in its bounded restatement (drain within a step bound).",
+   "trusted: the reference agent model (DESIGN.md appendix B, harness/src/mon/agent.rs); `now` is monotone in generated histories",
+   exhaustive_note="the small-scope part enumerates every history up to the depth bound over the 15-operation alphabet for both transports; the rest is sampled")
+
+_p("C06", "Retransmission timing follows the configured RFC 8489 schedule exactly", "exploration",
+   "runtime monitor: due-time arithmetic of a reference model in integer milliseconds checked against every poll reply over virtual time, plus the model-free WaitUntil self-consistency rule; configuration grid, poll-schedule sweep, small-scope enumeration",
+   _AGENT_RULE + " C06 emphasis: configurations rto in {1,2,499,500,501,1000,59999,60000,random} x retransmits 0..=8 x last timeout {0,1,8000,60000,random}, 1..=4 overlapping schedules, poll styles exact / 1 ms early / late by 1 ms..hours / half-way / random, reconfiguration and cancel_retransmissions in between; default schedule instants asserted literally.",
+   "Every retransmission, timeout and WaitUntil instant of ~10^5..10^7 schedules is compared with the model (exact for ordinary transactions; a window for transactions whose retransmissions were cancelled, whose completion instant the property leaves open).",
+   "trusted: reference agent model; durations are whole milliseconds (the API truncates sub-millisecond parts)")
+
+_p("C07", "Responses to authenticated requests are accepted only with valid integrity", "exploration",
+   "runtime monitor: the delivery decision of every response is predicted by an independent integrity validator inside the reference agent model; timing and later completion after a drop checked by the same model",
+   _AGENT_RULE + " C07 emphasis: authentication alphabet (sealed/unsealed requests, 8 response kinds, credentials set/unset/changed mid-transaction) enumerated to the depth bound with remote credentials initially unset and set; forged responses injected at every point of the schedule.",
+   "deliver iff not sealed or (remote credentials present and the response validates under them, by the harness's own HMAC); where the integrity attributes of a response are only partly valid either reply is admitted. Unchanged timing after a drop is checked by the C06 arithmetic.",
+   "trusted: reference agent model + reference HMAC")
+
+_p("C08", "Each built-in attribute decodes exactly the RFC encodings and round-trips", "exploration",
+   "runtime monitor: 19 typed decoders/encoders compared with reference codecs written from RFC 8489 s14 / RFC 8445; length sweeps, exhaustive small domains, random structured values",
+   "decode side: for each of the 19 types every value length 0..=800 x 7 content classes (zero, 0xff, valid/invalid UTF-8, address/error-shaped, algorithm-list-shaped, random); all 65536 ERROR-CODE (class, number) byte pairs; all 256 address-family bytes x lengths 0..=24; algorithm ids (all in thorough, strided in quick) x parameter lengths x value lengths; all lengths 0..=40 for every type; every type against every other type's tag; mutated valid encodings. encode side: all codes 300..=699, text at limit-2..limit+37, random in-limit values of every type through the public constructors: wire layout vs reference, decode(encode(v)) = v, re-encode stability. distinct = distinct (type, length, validity, first 8 bytes).",
+   "Accept/reject agreement, field equality and wire-layout equality against independent codecs over ~10^6 (quick) to ~10^8 (thorough) values, with the small domains enumerated completely.",
+   "trusted: harness/src/refimpl/attrs.rs; where the crate documents a deliberate leniency (reserved bits ignored, ALTERNATE-DOMAIN unbounded) the reference is lenient too; an empty PASSWORD-ALGORITHMS list is outside 'in-limit'")
+
+_p("C09", "FINGERPRINT is the RFC CRC; corrupting a fingerprinted message gets it rejected", "fault_enumeration",
+   "runtime monitor with fault enumeration: every single-bit flip, every burst pattern <= 8 bits at every position, sampled bursts <= 32 bits and byte substitutions of fingerprinted messages, each mutant judged by the reference decoder with an independent CRC-32",
+   "base messages: builder-made and reference-made fingerprinted messages of 28..~300 bytes with and without integrity attributes, plus a few near 64 KiB; mutants: all single-bit flips of the whole buffer, all burst patterns of length 2..=8 (2..=5 in quick) at every bit position, random bursts of 9..=32 bits, all 255 substitutions at every header / TLV-header / CRC byte and sampled ones elsewhere. The builder's FINGERPRINT value is compared with the reference on 10^4..10^6 random programs. distinct = distinct base messages + builder programs.",
+   "Systematic fault enumeration around every generated fingerprinted message; a mutant that still carries a FINGERPRINT inconsistent with its bytes must be rejected, one whose FINGERPRINT dissolved follows the reference's verdict.",
+   "trusted: bitwise CRC-32 (check value 0xCBF43926 self-tested) and the reference decoder")
+
+_p("C10", "Only authenticated attributes are exposed after an integrity attribute", "exploration",
+   "runtime monitor: exposed attribute sequence (iterator driven to None and four calls beyond, lookups) compared with the reference exposure rule on all tail arrangements, generated/mutated buffers and tail-replacement pairs",
+   "every sequence of up to 3 (quick) / 4 (thorough) sealing attributes over {MI, MI-SHA256 with 32/16/24-byte values, FINGERPRINT} x 0..=5 ordinary attributes in front, random content; for each accepted one the tail after the first integrity attribute is replaced by 4 other accepted tails and the exposed prefix compared; plus the grammar/mutation stream and the skeleton enumeration. " + _BYTES_RULE,
+   "Exposure equality against the rule in the property text for 10^5..10^7 accepted messages covering every order and subset of the three sealing attributes; also checks that exposed ordinary attributes lie before the attribute validate_integrity reports.",
+   "trusted: reference decoder + 12-line exposure rule (DESIGN.md appendix A)", logcheck=True)
+
+_p("C11", "Builder ordering rules hold and refused operations leave no trace", "exploration",
+   "runtime monitor: every builder operation sequence up to the depth bound checked step by step against a reference model of the rule table, with full state snapshots (build, byte_len, has_attribute over the type universe) before and after each refused call",
+   "all sequences up to length 5 (quick) / 7 (thorough) over {add typed x3, add raw, add duplicate (through both entry points), SHA-1, SHA-256, fingerprint, into_owned, clone} = 10^5 / 10^7 sequences, plus random sequences of 8..=40 operations over 19 typed and 23 raw types (SmallVec spill). After each sequence the serialisation is walked by the reference decoder and validated. distinct = distinct operation sequences.",
+   "Small-scope exhaustive enumeration of operation sequences with a state-equality oracle: a refused operation must leave every observable of the builder unchanged.",
+   "trusted: 30-line rule-table model; operations documented to panic (sealing types through add_attribute) are not driven",
+   layers=["miri"], exhaustive_note="all sequences up to the depth bound over the 10-operation alphabet are enumerated; longer ones are sampled")
+
+_p("C12", "All serialisation paths produce identical bytes", "exploration",
+   "runtime monitor: pairwise byte equality of all serialisation paths into sentinel-filled (dirty) destinations, every too-short destination size",
+   "for every attribute value: write_into into 0xA5-filled buffers of padded+0/+1/+16 bytes vs to_raw().to_bytes(), declared length, zero padding, untouched tail, and every destination shorter than the padded length (all sizes for <= 64 bytes, boundary sizes above); values: raw attributes of every length 0..=763, text attributes at every byte length up to their limit, ERROR-CODE reasons 0..=763, lists 0..=64, random values of all 19 types. Builders as in C03: build vs write_into exact/+1/+16/+300 vs clone vs into_owned, every destination size 0..len-1 for messages <= 600 bytes. distinct = distinct (type, length, first bytes).",
+   "Direct equality oracle over 10^5..10^7 values and builders with exhaustive short-destination sweeps.",
+   "trusted: none beyond byte comparison; dirty destinations are essential because build() starts from a zeroed vector")
+
+_p("C13", "XOR-MAPPED-ADDRESS returns the address that was put in", "exploration",
+   "runtime monitor: XorMappedAddress new/addr/to_raw/from_raw/message trip compared with a 10-line reference transform over boundary patterns, all ports, per-octet walks and sampled addresses",
+   "all 65536 ports x 6 boundary addresses (all-zero, all-one, cookie-equal; IPv4 and IPv6) x rotating ids; every octet position x every value 0..=255 for IPv4 and IPv6 x 3 ids; every single-bit transaction id x boundary addresses through a real message; a strided sweep of 2^20 (quick) / 2^26 (thorough) IPv4 addresses; 2^19 / 10^8 random IPv6 addresses x random ids; IPv6 decoded under a different id must differ, IPv4 must not depend on the id. distinct = distinct (address, port, id) keys (capped).",
+   "Sampling plus structural walks of a bytewise XOR; the unsampled bulk of 2^144 / 2^240 inputs is covered only by the argument that the transform is bytewise.",
+   "trusted: RefAddr::xor in harness/src/refimpl/attrs.rs; socket addresses carry flowinfo/scope 0")
+
+_p("C14", "TCP framing buffer returns exactly the frames that were sent", "exploration",
+   "runtime monitor: push/pull event stream of TcpBuffer checked against a reference de-framer; frames carry unique ids; every chunk composition of short streams, random chunkings of long ones",
+   "every frame-size sequence whose encoded stream is <= 12 (quick, sampled above 9) / 14 (thorough) bytes x every composition of the stream into chunks x 4 pull patterns (after every push / only at the end / alternating); random cases with frame sizes {0,1,2,3,255,256,257,65534,65535,random}, up to 40 frames / 2 MB, chunking styles 1-byte drip, 0..3-byte (incl. empty), huge, boundary-sized, and streams ending in an incomplete frame. distinct = distinct (sequence, composition) pairs.",
+   "Exhaustive small-scope enumeration of chunkings with an exact oracle (pull returns Some iff a complete frame is buffered, and then exactly the next frame), plus random long streams.",
+   "trusted: 20-line reference de-framer", exhaustive_note="all compositions of every enumerated short stream are covered; long streams are sampled")
+
+_p("C15", "A peer is validated only by a STUN message accepted from it, and stays validated", "exploration",
+   "runtime monitor: is_validated_peer for the whole address universe compared with the reference model's set after every call of every agent history",
+   _AGENT_RULE + " C15 emphasis: sources drawn from 5 addresses (IPv4/IPv6, same IP with another port) plus two addresses never handed to the agent.",
+   "The validated set must equal the model's (grows exactly on IncomingStun and on delivered responses) after every one of ~10^6..10^8 calls: monotonicity, no validation on send or drop, no cross-address leakage.",
+   "trusted: reference agent model")
+
+_p("C16", "Attribute policing returns exactly the RFC 8489 s6.3.1 verdict", "exploration",
+   "runtime monitor: check_attribute_types compared with reference policing over the reference exposure for all supported/required subsets; generated responses re-parsed by the reference decoder; comprehension_required exhaustively",
+   "requests from the grammar generator (duplicates, hidden tails, FINGERPRINT, integrity) x all subsets of (exposed types + 1 absent required + 1 absent optional) for both lists when <= 5 types are exposed (strided in quick for the 7-element pools), random subsets otherwise, plus lists with duplicates; comprehension_required for all 65536 types. distinct = distinct requests.",
+   "Verdict (420 + list in message order modulo duplicates / 400 / none), and shape of the generated response (class, method, id, ERROR-CODE, parses) compared with an independent computation for ~10^6..10^8 (request, supported, required) triples.",
+   "trusted: reference decoder/exposure + ERROR-CODE / UNKNOWN-ATTRIBUTES reference codecs; only requests are policed here (non-requests are C01's concern)")
+
+_p("C17", "A prefix of a message is reported as truncated with the length still needed", "exploration",
+   "runtime monitor: every cut point of well-formed messages parsed and compared with the exact expected Truncated counts; MessageHeader decoder compared with the reference and with the full parser",
+   "well-formed messages 20..=2000 bytes (two thirds reference-made, one third builder-made) x every cut 0..len; messages up to 65552 bytes with the first 40, the last 9 and 200 random cuts; header sweeps: 4 top-bit combinations x 33 cookie variants x random rest, also on short slices. distinct = distinct messages.",
+   "Exact oracle (expected = 20 below 20 bytes, len(m) from 20 on; actual = cut) over 10^6..10^8 prefixes.",
+   "trusted: reference decoder for well-formedness of the base messages")
+
+_p("C18", "Every transmission is the unmodified request, addressed as asked", "exploration",
+   "runtime monitor: every Transmit returned by send and poll compared byte-for-byte and address-for-address with what the reference model recorded at send time; peer_address observed after every call",
+   _AGENT_RULE + " C18 emphasis: message contents vary in method, attributes, length (0..1400-byte payload attribute), sealing and FINGERPRINT; several concurrent requests carry different payloads so that a mix-up between transactions is visible.",
+   "Byte equality of the initial transmission with the builder's own build() output and of every retransmission with that same record; from/to/transport; non-requests leave no transaction.",
+   "trusted: reference agent model; the bytes compared against are the builder's own serialisation taken before the message is handed over")
+
+_p("C20", "The agent is a pure function of its inputs (sans-IO)", "exploration",
+   "runtime monitor: clock reads trapped by symbol interposition (clock_gettime/gettimeofday/time defined in the harness binary) around every agent call; normalised reply logs compared between a base run and shifted / second-instance / noisy / threaded replays; Miri data-race detection in the thorough tier",
+   "random histories (20..=600 operations, 4 ids, general/timing/auth emphasis) and the enumerated small scope, each replayed: base; every instant shifted by 1 ms / 1 s / 1 h / 10^9 ms / random; a second instance; with unrelated agents created and driven between every two steps; every 16th also on a spawned thread and on four threads concurrently. Polls drain (repeat at the same instant until WaitUntil) and each drain is compared as a multiset because simultaneously due transactions may be served in any order. distinct = distinct histories.",
+   "Direct observation of ambient clock reads (must be 0; the interposer is probed live in every process) plus metamorphic replay equality over ~10^4..10^6 runs.",
+   "trusted: symbol interposition sees libc clock entry points only; other ambient channels (environment, files) would show up only if they influence replies",
+   layers=["miri"])
